@@ -12,6 +12,7 @@ T5 == MkCfg(<<MkCmd(N_ABA, FALSE, FALSE, TRUE, FALSE, <<>>), MkCmd(N_AB, FALSE, 
 T6 == MkCfg(<<MkCmd(<<97>>, TRUE, FALSE, TRUE, FALSE, <<>>), [MkCmd(N_A, TRUE, FALSE, FALSE, FALSE, <<>>) EXCEPT !.implicit = TRUE], MkCmd(N_AB, TRUE, FALSE, TRUE, FALSE, <<>>)>>, 6, 6, 1, FALSE)
 
 MCTables == {T1, T2, T3, T4, T5, T6}
+MCTables7 == {T3, T6}
 MCBytes == {65, 84, 66, 97, 61, 63, 49, 13, 10}
 MCCodes == {RET_OK, RET_ERROR}
 Bounded == nbytes <= MaxBytes
